@@ -429,6 +429,7 @@ class BaseParser:
     ):
         addition = {}
         result = {}
+        given_values = {}
         dependencies = set()
         unprovided_fields = set()
         options = context.options
@@ -453,10 +454,12 @@ class BaseParser:
                 continue
 
             if not options.ignore_alias_conflicts:
-                if name in result:  # or (excluded_keys and name in excluded_keys):
-                    if result[name] != value:
+                if name in given_values:  # or (excluded_keys and name in excluded_keys):
+                    # compare the given values with each other (not a parsed result with a raw value)
+                    if given_values[name] != value:
                         context.handle_error(exc.AliasConflictError(item=name, value=value))
                     continue
+                given_values[name] = value
 
             if excluded_keys and name in excluded_keys:
                 continue
